@@ -11,7 +11,7 @@ Import ListNotations.
 Open Scope Z_scope.
 
 (* is_reset s: variables, arrays, string space, DEFtype, OPTION BASE, DEF FN, GOSUB / FOR / WHILE stacks,
-   error trap and ERR / ERL, STOP / DATA pointers, RND seed and event traps of s equal those of the freshly
+   error trap and ERR / ERL, math-error mode (soft), STOP / DATA pointers, RND seed and event traps of s equal those of the freshly
    constructed session (init_state) with the same memory size and program. *)
 
 (* CLEAR [n][,[memory][,stack]], whenever it does not raise (Illegal function call / Out of memory on its
@@ -131,7 +131,7 @@ Print Assumptions C23_chain_missing_line.
 Theorem C23_chain_rest_cleared : forall a s s', cmd_chain a s = Done s' ->
   (gosub_stack s', for_stack s', while_stack s') = ([], [], [])
   /\ (on_error s', err_handle s', err_resume s', err_num s', err_pos s') = (None, false, false, 0, 0)
-  /\ (stop_pos s', data_pos s', seed s') = (None, 0, 5228370)
+  /\ (stop_pos s', data_pos s', seed s', math_raise s') = (None, 0, 5228370, false)
   /\ (ev_enabled s', ev_gosub s', ev_stopped s', ev_suspend s') = ([], [], [], false)
   /\ deftype s' = (if c_merge a then deftype s else repeat 33 26)
   /\ functions s' = (if c_all a then functions s else [])
@@ -183,7 +183,7 @@ Definition ex_state : state :=
     [([78; 37], [1])] [([78; 37], [7; 0; 9; 0])] [[78; 37]] 13 (Some 0) true
     [(65018, [97; 98; 99]); (65021, [120; 121])] 65017 [] (repeat 33 26) [[70; 33]]
     [1] [2; 3] [4] (Some 100) false false 5 17 None 40 true false 77
-    [1] [1] [] false [1] false 64.
+    [1] [1] [] false [1] false 64 true.
 Definition ex_chain : chain_args :=
   mkChain false false None false false false false false 50
           [([66; 36], 0); ([78; 37], 1)] [[66; 36]] [[78; 37]].
@@ -209,7 +209,7 @@ Definition ex_field_state : state :=
   mkState 65534 512 4717 200 true
     [([70; 36], [5; 111; 15])] [[70; 36]] 7 [] [] [] 0 None false
     [] 65020 [((3951, 5), [104; 101; 108; 108; 111])] (repeat 33 26) []
-    [] [] [] None false false 0 0 None 0 true false 5228370 [] [] [] false [1] false 5037.
+    [] [] [] None false false 0 0 None 0 true false 5228370 [] [] [] false [1] false 5037 false.
 Example C23_field_nonvacuous :
   wf ex_field_state /\ scalar_value ex_field_state [70; 36] = Some (Ok [104; 101; 108; 108; 111])
   /\ exists s', cmd_chain (mkChain false false None false false false false false 50 [([70; 36], 0)] [[70; 36]] [])
